@@ -1,5 +1,6 @@
 /* type environment + loop contract for unit http_retry (C17) */
-typedef struct { int _mutex; } HttpClient;
+#include "exec_model.h"
+typedef struct HttpClient_s { int _mutex; iora_transport *_transport; HttpConfig _config; } HttpClient;
 
 /* RFC 9110 section 9.2.2: idempotent methods are the safe methods (GET, HEAD, OPTIONS, TRACE) plus PUT and DELETE; method tokens are
  * case-sensitive (section 9.1). Written from the RFC as byte values. Needs m.n > 0 for the clamped reads. */
@@ -22,9 +23,27 @@ typedef struct { int _mutex; } HttpClient;
 /* ghost snapshot of IDEM(method), bound by the precondition (the loop invariant must not re-read the method bytes) */
 bool G_idem;
 
+/* ghosts written by one attempt (exec_model.h) */
+#define EXEC_ATTEMPT_GHOSTS G_presend_entered, G_acquired, G_sid, G_send_calls, G_recv_calls, G_drop_calls, G_dropped, G_send_ok, G_async_ok, G_rrc_called, G_rrc, G_fr_force_evict, G_fr_mode, G_peer_closed_body, G_reuse_cfg
+
+/* stated bound: response cap (max(maxResponseBytes, maxPayloadSize)) <= 2^60, so `size + 8192` cannot wrap (std::string::max_size is below that anyway) */
+#define EXEC_CAP_MAX ((size_t)1 << 60)
+
+/* loop 1 of the send+receive block of executeRequest: the receive loop. No variant: a peer may stream interim 1xx responses (which
+ * frameResponse erases from the buffer) for ever - termination is NOT decided (only each receiveSync is bounded by its timeout). */
+#define IORA_LOOP_HttpClient_exec_exchange_1 IORA_LC( \
+  __CPROVER_assigns(complete, responseData, headersDone, headerScanPos, bodyStart, resp, framing, chunkState, forceEvict, iora_exc, \
+                    __CPROVER_object_whole(buffer), G_recv_calls, G_fr_force_evict, G_fr_mode, G_peer_closed_body) \
+  __CPROVER_loop_invariant(iora_exc == EXC_NONE && G_acquired && sessionId == G_sid && G_send_ok && !G_dropped && G_drop_calls == 0 && !G_async_ok && !G_rrc_called) \
+  __CPROVER_loop_invariant(responseData.n <= effectiveCap && (headersDone ==> bodyStart <= responseData.n)) \
+  __CPROVER_loop_invariant(G_peer_closed_body ==> (complete && forceEvict)) \
+  __CPROVER_loop_invariant((G_fr_force_evict ==> forceEvict) && (complete && !G_peer_closed_body ==> G_fr_mode == framing.mode)) \
+  __CPROVER_loop_invariant(0 <= G_recv_calls && G_recv_calls < 100000))
+
 /* loop 1 of performRequest: the retry loop */
 #define IORA_LOOP_HttpClient_performRequest_1 IORA_LC( \
-  __CPROVER_assigns(attempt, iora_exc, iora_exc_caught, G_attempts, G_possibly_sent, G_framing_seen, G_attempts_after_framing, G_attempts_after_sent, G_last_ok, G_sleeps, *iora_ret) \
+  __CPROVER_assigns(attempt, iora_exc, iora_exc_caught, G_attempts, G_possibly_sent, G_framing_seen, G_attempts_after_framing, G_attempts_after_sent, G_last_ok, G_sleeps, *iora_ret, EXEC_ATTEMPT_GHOSTS) \
+  __CPROVER_loop_invariant(0 <= G_send_calls && G_send_calls <= G_possibly_sent) \
   __CPROVER_loop_invariant(iora_exc == EXC_NONE && 0 <= attempt && attempt <= RETRIES_MAX && G_attempts == attempt && G_sleeps == attempt) \
   __CPROVER_loop_invariant(!G_framing_seen && G_attempts_after_framing == 0 && (G_idem || G_attempts_after_sent == 0) && 0 <= G_attempts_after_sent && G_attempts_after_sent <= attempt && !G_last_ok) \
   __CPROVER_loop_invariant(0 <= G_possibly_sent && G_possibly_sent <= attempt && (G_idem || G_possibly_sent == 0)) \
@@ -34,3 +53,9 @@ bool G_idem;
 /* callees replaced by contracts (post.c) */
 Response HttpClient_executeRequest(HttpClient *self, iora_sv method, iora_sv url, iora_sv body, iora_hdrs headers);
 void HttpClient_ensureInitialized(HttpClient *self);
+
+/* environment of executeRequest (bodies in post.c: inline nondeterministic stubs) */
+SessionId HttpClient_acquireConnection(HttpClient *self, ParsedUrl u);
+void HttpClient_dropConnection(HttpClient *self, iora_sv hostPort, SessionId sid);
+bool HttpClient_frameResponse(HttpClient *self, iora_sv method, iora_ostr *data, bool *headersDone, size_t *headerScanPos, size_t *bodyStart, Response *resp, Framing *framing, ChunkState *chunkState, bool *forceEvict, size_t effectiveCap);
+bool HttpClient_responseRequestsClose_env(HttpClient *self, const Response *resp);
